@@ -645,8 +645,11 @@ func (l *segment) current() ([]byte, error) {
 	}
 	l.currentSize = int64(sz)
 
-	if int64(sz) > l.maxSize {
-		return nil, fmt.Errorf("record size out of range: max %d: got %d", l.maxSize, sz)
+	// A block lies between the head position and the footer. Bounding it by
+	// the file instead of the configured segment size keeps blocks readable
+	// that were accepted before the segment size was lowered.
+	if max := l.size - footerSize - l.pos - 8; int64(sz) > max {
+		return nil, fmt.Errorf("record size out of range: max %d: got %d", max, sz)
 	}
 
 	b := make([]byte, sz)
